@@ -355,6 +355,49 @@ def run(ctx):
     from ..etf import check_atom_tables
     check_atom_tables(ctx, 'C19.1-atom-interning')
 
+    # deregistration (connections.remove in the receiver task) takes the write lock of a table shard: it waits for every entry guard on it
+    ctx.rule('C19.4-table-guard-scope', 'a task that holds an entry guard of a node table (DashMap get / get_mut / entry / iter) across an await only awaits the connection\'s own mutex or one of its send operations; '
+             'it never waits for a reply, a timer or a channel with the guard alive - the receiver could not deregister the connection (nor route the reply) until that wait ends; a rule about what must not be there, so it may have no instance', floor=0)
+    from ..families import guard_flow
+    n_g = 0
+    for q in sorted(ctx.F.bodies):
+        if 'edp_node::' not in q:
+            continue
+        GB = P.B(q)
+        if GB is None:
+            continue
+        ys = [i for i, blk in enumerate(GB.blocks) if blk['t']['k'] == 'yield' and i in GB.live_blocks()]
+        if not ys:
+            continue
+        polls = [(bb, t) for bb, t in GB.calls() if (callee_of(t)[0] or '').endswith('Future::poll')]
+        for bb, t in GB.calls():
+            n = callee_of(t)[0] or ''
+            if not (n.startswith('dashmap::DashMap') and n.rsplit('::', 1)[-1] in ('get', 'get_mut', 'entry', 'iter', 'iter_mut')):
+                continue
+            sin, _bt = guard_flow(GB, bb)
+            held = [y for y in ys if sin.get(y)]
+            if not held:
+                continue
+            n_g += 1
+            inst = '%s:%s@%d' % (q.replace('edp_node::', '').split('::{')[0], n.rsplit('::', 1)[-1], n_g)
+            foreign = []
+            for y in held:
+                ps = [(pb, pt) for pb, pt in polls if GB.block_dominates(pb, y)]
+                if not ps:
+                    foreign.append((y, 'an unidentified future'))
+                    continue
+                pb, pt = max(ps, key=lambda x: x[0])
+                o = GB.origin(pt['args'][0])
+                fut = str(o[1]) if o and o[0] == 'call' else 'an unidentified future'
+                if fut.startswith('tokio::sync::mutex::Mutex') or fut.startswith('edp_client::connection::Connection::'):
+                    continue
+                foreign.append((y, fut))
+            if foreign:
+                ctx.bad('C19.4-table-guard-scope', inst, 'the table guard taken here is still alive while the task awaits %s: until that completes the receiver cannot remove the connection from the table' % foreign[0][1],
+                        ctx.where(GB, foreign[0][0]), key='LOCK:%s:table-guard-across-%s' % (q.split('::{')[0], foreign[0][1].rsplit('::', 1)[-1]))
+            else:
+                ctx.ok('C19.4-table-guard-scope', inst, 'held across %d await(s): the connection mutex and its send operation only' % len(held), ctx.where(GB, bb))
+
 
 def _outcomes(L, start, loop, recv_bb):
     """Outcomes {'continue','break'} reachable from `start`, propagating constant bools assigned on the
